@@ -738,7 +738,11 @@ namespace fixedmath
       int rshbits{ 48 - cxx20::countl_zero( uhi ) };
       uhi >>= rshbits;
       ulo >>= rshbits;
-      return as_fixed(sqrt( as_fixed( (uhi*uhi+ulo*ulo)>>prec_ ) ).v << rshbits)  ;
+      fixed_t const scaled{ sqrt( as_fixed( (uhi*uhi+ulo*ulo)>>prec_ ) ) };
+      //result above max() for arguments close to max()
+      if( fixed_unlikely( scaled.v >= (fixed_internal{1} << (63 - rshbits)) ) )
+        return quiet_NaN_result();
+      return as_fixed(scaled.v << rshbits);
       }
     //else check lo for underflow and shift left with d
     else if( ulo < (1<<16) )
